@@ -34,9 +34,25 @@ def psum_prefix(reg, twin=False):
                      patterns=[z3.MultiPattern(f(W1, k), f(W2, k))])
 
 
+def psum_mono(reg, twin=False):
+    """With non-negative widths on [0, j) the prefix sums are monotone (checked in Lean: lemmas/psum_prefix.lean, psum_mono)."""
+    sp = reg.specs["psum"]
+    if getattr(sp, "z3fn", None) is None or (twin and getattr(sp, "twin", None) is None):
+        return None
+    A = z3.ArraySort(z3.IntSort(), z3.IntSort())
+    W = z3.Const("pm_W", A)
+    i, j, q = z3.Ints("pm_i pm_j pm_q")
+    f = sp.twin if twin else sp.z3fn
+    return z3.ForAll([W, i, j], z3.Implies(z3.And(0 <= i, i <= j, z3.ForAll([q], z3.Implies(z3.And(0 <= q, q < j), W[q] >= 0))),
+                                           f(W, i) <= f(W, j)),
+                     patterns=[z3.MultiPattern(f(W, i), f(W, j))])
+
+
 if not hasattr(REG, "lemmas"):
     REG.lemmas = []
 REG.lemmas.append(psum_prefix)
+psum_mono.opt_in = True
+REG.lemmas.append(psum_mono)
 
 
 def terms_of(m):
@@ -60,6 +76,7 @@ def _widths_of(I, lst, what, extra=None):
         arr = ref.getattr(I, "data", None) if what == "data" else ref.method(I, "eval_new_data", [extra], {}, None)
     finally:
         I.ctx.spec_mode -= 1
+    I.ctx.assume(z3.ForAll([j], width_of(arr) >= 0))          # numpy shapes are non-negative
     return SList(lst.len, z3.Lambda([j], width_of(arr)), TInt())
 
 
@@ -95,14 +112,21 @@ INV = ["0 <= _i1", "_i1 <= len(terms_of(self))", "start == psum({W}, _i1)",
 
 for cls in ("CommonEffectsMatrix", "GroupEffectsMatrix"):
     REG.declare_class(M + cls, dict(FIELDS))
-    REG.contract(M + cls + ".evaluate", params={"data": "any", "env": "any"}, tags=["C17"],
+    REG.contract(M + cls + ".evaluate", params={"data": "any", "env": "any"}, tags=["C17"], lemmas=["psum_mono"],
                  requires=WF, modifies=["self.data", "self.env", "self.design_matrix", "self.slices", "self.evaluated"],
                  ensures=["self.evaluated",
                           # slices are contiguous, start at zero, follow the term order ...
                           SLICES.format(W="widths(self)"),
                           # ... and exactly cover the columns
                           "self.design_matrix.shape[1] == psum(widths(self), len(terms_of(self)))",
-                          "self.design_matrix.shape[0] == terms_of(self)[0].data.shape[0]"],
+                          "self.design_matrix.shape[0] == terms_of(self)[0].data.shape[0]",
+                          # every slice lies within the stacked matrix
+                          "forall(0, len(terms_of(self)), lambda k: 0 <= self.slices[terms_of(self)[k].name].start and "
+                          "self.slices[terms_of(self)[k].name].start <= self.slices[terms_of(self)[k].name].stop and "
+                          "self.slices[terms_of(self)[k].name].stop <= self.design_matrix.shape[1])",
+                          # ... and block k of the stacked matrix holds exactly term k's data
+                          "forall(0, len(terms_of(self)), lambda k: forall(0, self.design_matrix.shape[0], lambda r: "
+                          "forall(0, widths(self)[k], lambda c: self.design_matrix[r, psum(widths(self), k) + c] == terms_of(self)[k].data[r, c])))"],
                  loops={1: Loop(invariant=[c.format(W="widths(self)") for c in INV], modifies=["self.slices"])})
     REG.contract(M + cls + ".__getitem__", params={"term": "str"}, returns="arr2", tags=["C17"],
                  raises={"ValueError": "term not in self.slices"},
